@@ -1,4 +1,5 @@
 import BufrModel.Template
+import BufrModel.Bitmap
 import BufrSpec.Ops
 import Std.Data.HashMap
 /- driver ops for tables-as-loaded, templates and data subsets (C09, C10 and the codec units) -/
@@ -91,7 +92,7 @@ def stepTemplate (st : TmplSt) (toks : List String) : Option (TmplSt × String) 
     match st.tmpl with
     | none => some (st, "-1")
     | some t =>
-      match createDatasubset T defaultFuel t with
+      match createDatasubsetB T defaultFuel t with
       | .ok (s, err) => some ({ st with subsets := st.subsets.push s, invalid := st.invalid || err, hasDts := true }, s!"{st.subsets.size}")
       | .error .abort => some ({ st with hasDts := true }, "abort")
       | .error _ => some ({ st with hasDts := true }, "-1")
@@ -137,7 +138,7 @@ def stepTemplate (st : TmplSt) (toks : List String) : Option (TmplSt × String) 
     | some p, some t =>
       match st.subsets[p]? with
       | some s =>
-        match expandDatasubset T defaultFuel t s with
+        match expandDatasubsetB T defaultFuel t s with
         | .ok (s', err) => some ({ st with subsets := st.subsets.set! p s', invalid := st.invalid || err }, s!"{s'.nodes.length}")
         | .error .abort => some (st, "abort")
         | .error _ => some ({ st with subsets := st.subsets.set! p { nodes := [] } }, "-1")
